@@ -307,4 +307,71 @@ func runC17(c *Ctx) {
 		}
 		c.Check(nSites >= 2, r5, "child-attachment sites inventoried", token.NoPos, fmt.Sprintf("%d sites", nSites), fmt.Sprintf("only %d sites", nSites), nil)
 	}
+
+	r6 := c.Rule("R6", "parent links agree with child links: when a function creates a node N (newNode) and hangs it under X.ChildrenIDs[k] = N.ID, N's id/parent initialisation is N.newID(X.ID) - cursor stepping climbs through ParentID and asks that node for the child's index", 4)
+	{
+		nSites := 0
+		for _, f := range w.declaredFuncs("btree") {
+			info := f.Pkg.TypesInfo
+			defs := localDefs(f)
+			// newID calls per local node variable
+			parentArg := map[types.Object][]ast.Expr{}
+			for _, cs := range w.Sites(f) {
+				if cs.Key != "btree.Node.newID" || len(cs.Call.Args) != 1 {
+					continue
+				}
+				if sel, ok := ast.Unparen(cs.Call.Fun).(*ast.SelectorExpr); ok {
+					if id, ok := ast.Unparen(sel.X).(*ast.Ident); ok {
+						parentArg[info.Uses[id]] = append(parentArg[info.Uses[id]], cs.Call.Args[0])
+					}
+				}
+			}
+			ast.Inspect(f.Body, func(x ast.Node) bool {
+				as, ok := x.(*ast.AssignStmt)
+				if !ok || len(as.Lhs) != 1 || len(as.Rhs) != 1 {
+					return true
+				}
+				ix, ok := ast.Unparen(as.Lhs[0]).(*ast.IndexExpr)
+				if !ok {
+					return true
+				}
+				lsel, ok := ast.Unparen(ix.X).(*ast.SelectorExpr)
+				if !ok || lsel.Sel.Name != "ChildrenIDs" {
+					return true
+				}
+				rsel, ok := ast.Unparen(as.Rhs[0]).(*ast.SelectorExpr)
+				if !ok || rsel.Sel.Name != "ID" {
+					return true
+				}
+				cid, ok := ast.Unparen(rsel.X).(*ast.Ident)
+				if !ok {
+					return true
+				}
+				child := info.Uses[cid]
+				created := false
+				for _, d := range defs[child] {
+					if w.mentionsCall(f, d, "btree.newNode") {
+						created = true
+					}
+				}
+				if !created || len(parentArg[child]) == 0 {
+					return true
+				}
+				nSites++
+				want := types.ExprString(lsel.X) + ".ID"
+				okP := true
+				got := ""
+				for _, a := range parentArg[child] {
+					if types.ExprString(ast.Unparen(a)) != want {
+						okP = false
+						got = types.ExprString(a)
+					}
+				}
+				c.Check(okP, r6, fmt.Sprintf("%s: %s is created with the parent it is hung under", shortKey(f.Key), cid.Name), as.Pos(), cid.Name+".newID("+want+")",
+					fmt.Sprintf("%s is attached under %s.ChildrenIDs but created with newID(%s): its ParentID names another node, so stepping out of it asks that node for a child it does not hold - forward scans stop early, backward scans and later splits index out of range", cid.Name, types.ExprString(lsel.X), got), nil)
+				return true
+			})
+		}
+		c.Check(nSites >= 4, r6, "child attachment sites with locally created nodes inventoried", token.NoPos, fmt.Sprintf("%d sites", nSites), fmt.Sprintf("only %d sites", nSites), nil)
+	}
 }
